@@ -100,19 +100,24 @@ func (t timingRegs) VCC() uint64  { return t.wf.VCC() }
 func (t timingRegs) SCC() byte    { return t.wf.SCC() }
 
 type collector struct {
-	mu       sync.Mutex
-	full     bool
-	launches map[*kernels.HsaKernelDispatchPacket]int
-	recs     map[*kernels.Wavefront]*wfRec
-	order    []*wfRec
-	byTask   map[string]taskRef
-	opcodes  map[string]int
-	total    int
-	cdna3    bool
-	lite     map[string]liteRef
-	flagged  map[string]bool
-	flags    []string
-	journal  *os.File // full mode: every start / completion is appended at once (survives a crash)
+	mu                 sync.Mutex
+	full               bool
+	launches           map[*kernels.HsaKernelDispatchPacket]int
+	recs               map[*kernels.Wavefront]*wfRec
+	order              []*wfRec
+	byTask             map[string]taskRef
+	opcodes            map[string]int
+	total              int
+	cdna3              bool
+	lite               map[string]liteRef
+	flagged            map[string]bool
+	flags              []string
+	maxLive, scattered int
+	lastHi             map[string]int
+	diagSeq            []string
+	liveS              map[*wfRec]sgprSpan
+	pendingS           *sgprSpan
+	journal            *os.File // full mode: every start / completion is appended at once (survives a crash)
 }
 
 type liteRef struct {
@@ -405,6 +410,45 @@ func (c *collector) checkVGPRWindow(unit *cu.ComputeUnit, wf *wavefront.Wavefron
 	}
 }
 
+// checkSGPROverlap flags a wavefront that is given scalar registers a resident
+// (not yet retired) wavefront of the same compute unit still owns.
+func (c *collector) checkSGPROverlap(unit *cu.ComputeUnit, wf *wavefront.Wavefront) {
+	if unit == nil || wf.CodeObject == nil {
+		return
+	}
+	if c.liveS == nil {
+		c.liveS = map[*wfRec]sgprSpan{}
+	}
+	lo := wf.SRegOffset
+	hi := lo + 4*int(wf.CodeObject.WFSgprCount)
+	for r, s := range c.liveS {
+		if s.cu == unit.Name() && lo < s.hi && s.lo < hi && !c.flagged["sgpr-overlap"] {
+			c.flagged["sgpr-overlap"] = true
+			msg := fmt.Sprintf("sgpr-overlap %s: a new wavefront gets scalar register bytes [%d,%d) while resident wavefront %s still owns [%d,%d)", unit.Name(), lo, hi, r.key, s.lo, s.hi)
+			c.flags = append(c.flags, msg)
+			if f, err := os.OpenFile("flags.txt", os.O_CREATE|os.O_WRONLY|os.O_APPEND, 0o644); err == nil {
+				fmt.Fprintln(f, msg)
+				f.Close()
+			}
+		}
+	}
+	live := 1
+	for _, s := range c.liveS {
+		if s.cu == unit.Name() {
+			live++
+		}
+	}
+	if live > c.maxLive {
+		c.maxLive = live
+	}
+	c.pendingS = &sgprSpan{cu: unit.Name(), lo: lo, hi: hi}
+}
+
+type sgprSpan struct {
+	cu     string
+	lo, hi int
+}
+
 func (c *collector) StartTask(t tracing.Task) { c.startTask(t, nil) }
 
 func (c *collector) startTask(t tracing.Task, unit *cu.ComputeUnit) {
@@ -424,8 +468,24 @@ func (c *collector) startTask(t tracing.Task, unit *cu.ComputeUnit) {
 	defer c.mu.Unlock()
 	if _, seen := c.recs[wf.Wavefront]; !seen {
 		c.checkVGPRWindow(unit, wf)
+		c.checkSGPROverlap(unit, wf)
 	}
 	r := c.rec(wf.Wavefront)
+	if c.pendingS != nil {
+		c.liveS[r] = *c.pendingS
+		if c.lastHi == nil {
+			c.lastHi = map[string]int{}
+		}
+		wgKey := r.key[:strings.LastIndex(r.key, "/")]
+		if prev, ok := c.lastHi[wgKey]; ok && prev != c.pendingS.lo && prev != c.pendingS.hi+(c.pendingS.hi-c.pendingS.lo)-(c.pendingS.hi-c.pendingS.lo) {
+			c.scattered++
+		}
+		c.lastHi[wgKey] = c.pendingS.hi
+		if len(c.diagSeq) < 40 {
+			c.diagSeq = append(c.diagSeq, fmt.Sprintf("%s@%d", r.key[3:], c.pendingS.lo/384))
+		}
+		c.pendingS = nil
+	}
 	ev := c.note(r, wf.PC()-entryPC(wf.Wavefront), in.Inst)
 	if isMem(in.Inst) || (in.Inst.FormatType == insts.SOPP && in.Inst.Opcode == 1) {
 		c.lite[t.ID] = liteRef{rec: r, in: in.Inst}
@@ -448,6 +508,7 @@ func (c *collector) EndTask(t tracing.Task) {
 		delete(c.lite, t.ID)
 		if l.in.FormatType == insts.SOPP {
 			l.rec.retired = true
+			delete(c.liveS, l.rec)
 		} else if l.rec.retired && !c.flagged["late:"+l.in.InstName] {
 			// a memory instruction of a wavefront completes after the
 			// wavefront's s_endpgm has: its registers may already belong to
